@@ -93,8 +93,8 @@ static void do_tokenize(console_t *c)
 		}
 
 		if (c->scratch.buf[i - 1] == '\0') {
-			if (c->scratch.buf[i] == '\'' ||
-			    c->scratch.buf[i] == '"') {
+			if (!quote && (c->scratch.buf[i] == '\'' ||
+				       c->scratch.buf[i] == '"')) {
 				quote = c->scratch.buf[i];
 				c->scratch.buf[i] = '\0';
 			} else {
